@@ -24,7 +24,10 @@ type fragCase struct {
 	Lang  string   `json:"lang"`
 }
 
-var awkward = []string{"plain", "a < b && c > d", `"quoted" 'text'`, "ünïcödé", "tab\there", "two  spaces", "${x}", "x==1 ? 'a' : 'b'", "0", "true", "-"}
+var awkward = []string{"plain", "a < b && c > d", `"quoted" 'text'`, "ünïcödé", "tab\there", "two  spaces", "${x}", "x==1 ? 'a' : 'b'", "0", "true", "-",
+	// line ends of every kind (written as character references: a parser
+	// normalises raw CR / CRLF to LF), CDATA terminator, a lone ampersand entity look-alike
+	"windows\r\nline ends\r\n  kept", "lone\rcarriage return", "unix\nline end", "]]> inside", "&amp; literally"}
 
 // every fragment uses ids with the placeholder %N (instance number) so that a
 // fragment can occur several times; %T is an awkward text (XML-escaped).
@@ -98,7 +101,7 @@ var rootPool = []string{
 }
 
 func fragEsc(s string) string {
-	return strings.NewReplacer("&", "&amp;", "<", "&lt;", ">", "&gt;", `"`, "&quot;").Replace(s)
+	return strings.NewReplacer("&", "&amp;", "<", "&lt;", ">", "&gt;", `"`, "&quot;", "\r", "&#13;", "\n", "&#10;").Replace(s)
 }
 
 func fragDocument(c fragCase) string {
